@@ -11,11 +11,12 @@ Ltac destr :=
   match goal with
   | |- context [match ?x with _ => _ end] => (is_var x; destruct x) || (let E := fresh "E" in destruct x eqn:E)
   end.
-Ltac go := vm_compute; repeat (try reflexivity; destr; cbv beta iota).
+Ltac go := lazy; repeat (destr; lazy); vm_compute; reflexivity.
 
 Lemma Inv_new id : Inv (new_stream id).
 Proof. vm_compute. reflexivity. Qed.
 
+Opaque okb.
 Lemma L_event_test o s e : pc s = None -> top s = false -> In (ctl_of s) (table_for PNone) -> okb (fst (run_event o s e)) = true.
 Proof.
   intros Hpc Htop Hin.
@@ -26,6 +27,7 @@ Proof.
   apply orb_false_elim in Htop; destruct Htop as [-> ->].
   unfold ctl_of in Hin. cbn [HttpStream.cs HttpStream.ss msum upstream aborted reqerr_h req_fin resp_fin HttpStream.live req_stream] in Hin.
   unfold table_for in Hin.
+  Time (destruct Hin as [Hin | Hin]; [injection Hin; intros; subst; clear Hin; destruct e; try (go; fail) |]).
   Time (destruct Hin as [Hin | Hin]; [injection Hin; intros; subst; clear Hin; destruct e; try (go; fail) |]).
   Show 1.
 Admitted.
